@@ -22,7 +22,7 @@ for line in src:
         theorems.append((name, lemma))
     elif line.strip() == "RAW":
         mode = "raw"
-base = "Num Assoc AssocFacts Rng Par CF CFInv CFClean CFForget CFSpec Matrix Lin Warm WarmInv Nbr NbrFacts NbrIndep LshFacts Clu Tree CellFacts Mab FacadeCF FacadeArms MoreFacts NumLaws CFAlg Sim Extra QcInst OrderFacts ExpIrrel LinInv FacadeLin LpInv NbrInv CluTreeInv FacadeAll ToyFacts C09All C10All LinForget LinSim MatrixFacts GaussJordan LinSpec NbrIndepGen CluIndep C17Lin WarmIdem C14More LshScale TreeLeaf Rename PopSpec CopyFacts StatFacts".split()
+base = "Num Assoc AssocFacts Rng Par CF CFInv CFClean CFForget CFSpec Matrix Lin Warm WarmInv Nbr NbrFacts NbrIndep LshFacts Clu Tree CellFacts Mab FacadeCF FacadeArms MoreFacts NumLaws CFAlg Sim Extra QcInst OrderFacts ExpIrrel LinInv FacadeLin LpInv NbrInv CluTreeInv FacadeAll ToyFacts C09All C10All LinForget LinSim MatrixFacts GaussJordan LinSpec NbrIndepGen CluIndep C17Lin WarmIdem C14More LshScale TreeLeaf Rename PopSpec CopyFacts StatFacts CluBatch LinWarm".split()
 mods = base + [m for m in imports if m not in base]
 pre = "From Coq Require Import List ZArith Bool Arith QArith Qcanon Permutation.\nFrom MW Require Import %s.\nImport ListNotations.\n" % " ".join(mods)
 chk = pre + "Set Printing Width 110.\nSet Printing Depth 200.\n" + "".join("Check @%s.\n" % l for _, l in theorems)
